@@ -36,7 +36,8 @@ CFG = {
             "`oncl` (a third of the cases with effects) = every effect run registers one on_cleanup; observable ` cl=` = cleanup calls per effect and op, oracle = "
             "exactly one call per superseded run and per disposal, none twice; effect constructors now include RenderEffect::new_isomorphic (`rieff`) and "
             "Effect::watch_sync; `imm` (an eighth) = ImmediateEffect::new (runs at creation and inside notifications, no task; must converge, run once per change and "
-            "never hang - the per-line watchdog prints `hang`); diamonds whose top memo reads the cut-off branch before the shared memo; `slice`, `mapped`, `maybe`, `dropped`, `scope`, `disposew` as in C01",
+            "never hang - the per-line watchdog prints `hang`); diamonds whose top memo reads the cut-off branch before the shared memo; `slice`, `mapped`, `maybe`, `dropped`, `scope`, `disposew` as in C01; a third of the selector cases are `selc` = "
+            "Selector::new_with_fn with the non-equality comparator f(key, v) = (v == key || v == key + 1) (a key matches two adjacent values; 2-4 keys)",
     "trusted": ["hx_common::sched controlled executor standing in for any executor (tasks polled one at a time on one thread)",
                 "lean/LeptosModel/Model/ReactiveDriver.lean desugars `sel K e` into K flag signals + one render effect (no model change); `woke=` lists the wake-ups "
                 "made by one selector run sorted (the code walks a hash map of keys), `eruns=` shows a selector run's source reads once"],
@@ -44,7 +45,8 @@ CFG = {
                  "by correspondence only: computed/selector.rs Selector::new + selected (per-key trigger = flag signal, RenderEffect::new_isomorphic = render effect), "
                  "accessor / constructor / handle-family variety, effect/immediate.rs ImmediateEffect::new (an effect polled to completion after every primitive step), "
                  "owner cleanup per effect run (one call per superseded run; counted from the model's run log)"],
-    "assumptions": ["Effect::new, new_sync, new_isomorphic, watch / watch_sync (dependency function; the handler reads at most one signal), RenderEffect::new / new_isomorphic, Selector::new and ImmediateEffect::new are driven; Selector::new_with_fn / remove / clear are not", "single-threaded executor",
+    "assumptions": ["`selc`: the desugared selector body evaluates its source a varying number of times, so `eruns=` lists a selc selector's runs without the values it read (both sides); its readers' runs and values are compared as usual. A reader's re-run is justified by the selector's NOTIFICATION of its key (every key matching the old or the new value when the value changed), kept by the harness from the source values alone",
+                    "Effect::new, new_sync, new_isomorphic, watch / watch_sync (dependency function; the handler reads at most one signal), RenderEffect::new / new_isomorphic, Selector::new and ImmediateEffect::new are driven; Selector::new_with_fn / remove / clear are not", "single-threaded executor",
                     "ImmediateEffect: only bodies without write / untracked read whose directly read nodes are signals or memos over signals with pairwise disjoint signal ancestors are admitted (`bad-op` otherwise, both sides). Outside that class the unchanged code lets the effect see new + old values and run twice (hooks/imm-glitch-demo: proposed known class immediate-glitch, not checkable by this correspondence because the model runs effects after, not inside, a notification)",
                     "selector cases contain no pause / resume / dispose ops (a selector is not owner-scoped; an owner created under a paused root inherits `paused`, which the model's per-effect flag does not follow)"],
     "manifest": {
